@@ -33,19 +33,25 @@ KeySeq(m) == LET ks == SetToSeq(DOMAIN m) IN [k \in 1..Len(ks) |-> KeyVal(ks[k])
 ValSeq(m) == LET ks == SetToSeq(DOMAIN m) IN [k \in 1..Len(ks) |-> m[ks[k]]]
 Unordered(xs) == IF Len(xs) <= 1 THEN OV(ListV(xs)) ELSE OU(ListV(xs))
 
-\* nested get through maps only
+\* nested get through maps (by key) and vectors (by index); the empty path is the value itself
+\* (documented in tests/stepG_infunctions.mal)
 RECURSIVE GetIn(_, _, _)
 GetIn(v, path, i) ==
   IF i > Len(path) THEN OV(v)
   ELSE IF v.t = "nil" THEN OV(NilV)
   ELSE IF v.t = "map" /\ IsKeyable(path[i]) THEN
        IF KeyOf(path[i]) \in DOMAIN v.m THEN GetIn(v.m[KeyOf(path[i])], path, i + 1) ELSE OV(NilV)
+  ELSE IF v.t = "vec" /\ path[i].t = "int" /\ path[i].i >= 0 /\ path[i].i < Len(v.xs) THEN GetIn(v.xs[path[i].i + 1], path, i + 1)
   ELSE OX
 
 RECURSIVE AssocIn(_, _, _, _)
 \* maps only; missing or nil intermediate levels become fresh maps
 AssocIn(v, path, i, new) ==
-  IF v.t # "map" \/ ~IsKeyable(path[i]) THEN OX
+  IF v.t = "vec" /\ path[i].t = "int" /\ path[i].i >= 0 /\ path[i].i < Len(v.xs) THEN
+    (IF i = Len(path) THEN OV(VecV([v.xs EXCEPT ![path[i].i + 1] = new]))
+     ELSE LET r == AssocIn(v.xs[path[i].i + 1], path, i + 1, new) IN
+            IF r.k = "val" THEN OV(VecV([v.xs EXCEPT ![path[i].i + 1] = r.v])) ELSE r)
+  ELSE IF v.t # "map" \/ ~IsKeyable(path[i]) THEN OX
   ELSE LET k == KeyOf(path[i]) IN
     IF i = Len(path) THEN OV(MapV(MapPut(v.m, k, new)))
     ELSE LET sub == IF k \in DOMAIN v.m /\ v.m[k].t # "nil" THEN v.m[k] ELSE MapV(EmptyMap)
@@ -82,7 +88,8 @@ PureNames == TypePreds \cup Arith \cup
   {"=", "list", "vector", "cons", "concat", "vec", "nth", "first", "rest", "count", "empty?",
    "conj", "seq", "take", "take-last", "drop", "drop-last", "subvec", "range", "hash-map",
    "assoc", "dissoc", "get", "contains?", "keys", "vals", "merge", "rename-keys", "get-in",
-   "assoc-in", "set", "hash-set", "symbol", "keyword", "pr-str", "str", "read-string", "with-meta", "meta"}
+   "assoc-in", "set", "hash-set", "symbol", "keyword", "pr-str", "str", "read-string", "with-meta", "meta",
+   "assert", "prn", "println"}
 
 RECURSIVE HasUnorderedInside(_)
 \* printing a value with a multi-entry map or set inside has no specified text
@@ -114,8 +121,11 @@ Pure(name, a) ==
            (CASE name = "+" -> OV(IntV(x + y))
              [] name = "-" -> OV(IntV(x - y))
              [] name = "*" -> OV(IntV(x * y))
+             \* integer division truncates toward zero
              [] name = "/" -> IF y = 0 THEN OE
-                              ELSE IF x >= 0 /\ y > 0 THEN OV(IntV(x \div y)) ELSE OX
+                              ELSE LET ax == IF x < 0 THEN -x ELSE x  ay == IF y < 0 THEN -y ELSE y
+                                       q == ax \div ay
+                                   IN OV(IntV(IF (x < 0) = (y < 0) THEN q ELSE -q))
              [] name = "<" -> OV(BoolV(x < y))
              [] name = "<=" -> OV(BoolV(x <= y))
              [] name = ">" -> OV(BoolV(x > y))
@@ -237,9 +247,12 @@ Pure(name, a) ==
                         ELSE IF a[1].t = "nil" THEN OX ELSE OE
     [] name = "vals" -> IF n # 1 THEN OE ELSE IF a[1].t = "map" THEN Unordered(ValSeq(a[1].m))
                         ELSE IF a[1].t = "nil" THEN OX ELSE OE
+    \* nil stands for the empty map, except that (merge nil nil) is nil (tests/stepE_merge_assert.mal)
     [] name = "merge" -> IF n # 2 THEN OX
                          ELSE IF a[1].t = "map" /\ a[2].t = "map" THEN OV(MapV(MapMerge(a[1].m, a[2].m)))
-                         ELSE IF a[1].t \in {"map", "nil"} /\ a[2].t \in {"map", "nil"} THEN OX ELSE OE
+                         ELSE IF a[1].t = "nil" /\ a[2].t = "map" THEN OV(a[2])
+                         ELSE IF a[1].t = "map" /\ a[2].t = "nil" THEN OV(a[1])
+                         ELSE IF a[1].t = "nil" /\ a[2].t = "nil" THEN OV(NilV) ELSE OE
     [] name = "rename-keys" ->
          IF n # 2 THEN OE
          ELSE IF a[1].t # "map" \/ a[2].t # "map" THEN (IF a[1].t = "nil" \/ a[2].t = "nil" THEN OX ELSE OE)
@@ -254,7 +267,7 @@ Pure(name, a) ==
                           ELSE GetIn(a[1], a[2].xs, 1)
     [] name = "assoc-in" -> IF n # 3 THEN OE
                             ELSE IF a[2].t # "vec" THEN OE
-                            ELSE IF a[2].xs = <<>> THEN OX
+                            ELSE IF a[2].xs = <<>> THEN (IF IsColl(a[1]) THEN OV(a[1]) ELSE OX)
                             ELSE AssocIn(a[1], a[2].xs, 1, a[3])
     [] name = "set" -> IF n # 1 THEN OE
                        ELSE IF a[1].t = "nil" THEN OV(SetV(EmptyMap))
@@ -274,6 +287,10 @@ Pure(name, a) ==
     [] name = "with-meta" -> IF n # 2 THEN OE
                              ELSE IF a[1].t \in {"list", "vec", "map", "set", "fn", "bfn"} THEN OV(a[1]) ELSE OE
     [] name = "meta" -> OX
+    \* (assert x [message]): an error when x is nil or false, nil otherwise
+    [] name = "assert" -> IF n \notin {1, 2} THEN OE ELSE IF Truthy(a[1]) THEN OV(NilV) ELSE OE
+    \* printing builtins: their output is outside the model, their value is nil
+    [] name \in {"prn", "println"} -> OV(NilV)
     [] name = "read-string" -> IF n # 1 THEN OE
                                ELSE IF a[1].t # "str" THEN OE
                                ELSE LET r == Read(a[1].s) IN
